@@ -142,10 +142,21 @@ class guard:
 
 
 def jclass(j, n):
-    """class of the requested derivative order j for a sum of n coefficients (degree n-1)."""
+    """class of the requested derivative order j for a sum of n coefficients (degree n-1) — case accounting."""
     if j >= n:
         return 'j>=len'
     return 'j=1' if j == 1 else '2<=j<len'
+
+
+def rowclass(jj, j, n):
+    """mechanism class of row jj of a Clenshaw derivative table requested up to order j for n coefficients:
+    rows at or beyond the number of coefficients must vanish (the recurrence has to stop at the degree of the sum);
+    the other rows depend on the seed factor, which is only exercised differently when j >= 2."""
+    if jj == 0:
+        return 'row0-sum'
+    if jj >= n:
+        return 'j>=len'
+    return 'j=1' if j == 1 else 'j>=2'
 
 
 def effective_len(s):
@@ -235,7 +246,7 @@ def post_jacobi_sum_clenshaw_der(token, args, kwargs, result):
         ref, unc, refsup, fsup = spectral(sample, lo, hi, x, k=jj, K=n + 4)
         if jj >= neff:      # derivative of order > degree: identically zero
             ref, unc, refsup = np.zeros(x.shape), 0.0, 0.0
-        key = 'C09/jacobi_sum_clenshaw_der/' + ('row0-sum' if jj == 0 else jclass(j, n))
+        key = 'C09/jacobi_sum_clenshaw_der/' + rowclass(jj, j, n)
         judge('jacobi_sum_clenshaw_der.rows', got, ref, unc, key,
               f'jacobi_sum_clenshaw_der(j={j}): alphas[{jj}][0] is not the derivative of order {jj} of sum s_n P_n', desc,
               refsup=refsup, fsup=fsup, dscale=(2 / (hi - lo)) ** jj, inner=True, row=jj)
@@ -265,7 +276,7 @@ def post_clenshaw_qbfs_der(token, args, kwargs, result):
         ref, unc, refsup, fsup = spectral(sample, lo, hi, x, k=jj, K=n + 4)
         if jj >= neff:      # derivative of order > degree: identically zero
             ref, unc, refsup = np.zeros(x.shape), 0.0, 0.0
-        key = 'C09/clenshaw_qbfs_der/' + ('row0-sum' if jj == 0 else jclass(j, n))
+        key = 'C09/clenshaw_qbfs_der/' + rowclass(jj, j, n)
         judge('clenshaw_qbfs_der.rows', got, ref, unc, key,
               f'clenshaw_qbfs_der(j={j}): 2(alphas[{jj}][0]+alphas[{jj}][1]) is not d^{jj}/dx^{jj} of sum c_n Q_n(x)', desc,
               refsup=refsup, fsup=fsup, dscale=(2 / (hi - lo)) ** jj, inner=True, row=jj)
@@ -298,7 +309,7 @@ def post_clenshaw_q2d_der(token, args, kwargs, result):
         ref, unc, refsup, fsup = spectral(sample, lo, hi, x, k=jj, K=n + 4)
         if jj >= neff:      # derivative of order > degree: identically zero
             ref, unc, refsup = np.zeros(x.shape), 0.0, 0.0
-        key = 'C09/clenshaw_q2d_der/' + ('row0-sum' if jj == 0 else jclass(j, n))
+        key = 'C09/clenshaw_q2d_der/' + rowclass(jj, j, n)
         judge('clenshaw_q2d_der.rows', got, ref, unc, key,
               f'clenshaw_q2d_der(j={j}): the alpha sums of row {jj} are not d^{jj}/dx^{jj} of sum c_n Q_n^m(x)', desc,
               refsup=refsup, fsup=fsup, dscale=(2 / (hi - lo)) ** jj, inner=True, row=jj)
@@ -502,14 +513,17 @@ def mclass(m):
     return 'm=0' if m == 0 else ('m>0' if m > 0 else 'm<0')
 
 
-def rt_sets(rng, rlo=0.0, rhi=1.0):
+def rt_sets(rng, rlo=0.0, rhi=1.0, ends=False):
     def r(shape):
         return rlo + (rhi - rlo) * (0.03 + 0.94 * rng.random(shape))
 
     def t(shape):
         return rng.uniform(-1.0, 7.0, shape)
     g_r, g_t = np.meshgrid(np.sort(r(4)), np.sort(t(3)))
-    return [('0d', np.array(float(r(()))), np.array(float(t(())))), ('1d', r(6), t(6)), ('2d', g_r, g_t)]
+    out = [('0d', np.array(float(r(()))), np.array(float(t(())))), ('1d', r(6), t(6)), ('2d', g_r, g_t)]
+    if ends:    # polynomial routines are regular on the axis and on the rim
+        out.append(('ends', np.array([rlo, rlo, rhi, rhi, 0.5 * (rlo + rhi)]), np.array([0.0, 2.0, 0.0, 4.0, 1.0])))
+    return out
 
 
 def zernike_oracle(zernike_nm, n, m, r, t, norm):
@@ -540,7 +554,7 @@ def run_zernike(ctx, counter):
             continue
         rng = case_rng('zern', n, m)
         for norm in (True, False):
-            for xl, r, t in rt_sets(rng):
+            for xl, r, t in rt_sets(rng, ends=True):
                 desc = {'fn': 'zernike_nm_der', 'n': n, 'm': m, 'norm': norm, 'x': xl,
                         'class': f'zernike_nm_der:{"n=0" if n == 0 else ("n=1" if n == 1 else "n>=2")}:{mclass(m)}:norm={norm}:{xl}'}
                 ctx.case(desc)
@@ -767,7 +781,7 @@ def run_q2d(ctx, counter):
                 continue
             rng = case_rng('q2d', rep, si)
             deg, mmax = q2d_degree(cm0, ams, bms)
-            for xl, u, t in rt_sets(rng):
+            for xl, u, t in rt_sets(rng, ends=True):
                 desc = {'fn': 'compute_z_zprime_Q2d', 'structure': label, 'sub': rep, 'lens': [len(cm0), [len(a) for a in ams], [len(b) for b in bms]],
                         'x': xl, 'class': f'compute_z_zprime_Q2d:{label}:{xl}'}
                 ctx.case(desc)
